@@ -1691,3 +1691,28 @@ ref("glob-curdir-prefix-precomputed", ["C12", "C05", "C13"], "the ./ prefix comp
                                 } else {
                                     result.push(file_path.to_string());
                                 }""", """                                result.push(format!("{}{}", lead, file_path.trim_start_matches("./")));"""))
+
+mut("C18", "vacuum-after-delete", "R18-6|builtins::history::delete_history_item|renumbers|vacuum",
+    "the file is compacted after a delete: implicit rowids are renumbered",
+    ("src/builtins/history.rs", """        Ok(_) => true,
+        Err(e) => {
+            log!("history: error when delete: {:?}", e);""", """        Ok(_) => {
+            let _ = conn.execute_batch("VACUUM");
+            true
+        }
+        Err(e) => {
+            log!("history: error when delete: {:?}", e);"""))
+mut("C15", "source-refuses-by-state", "R15-10|builtins::source::run|always-runs",
+    "source skips a file whose name equals the script being run",
+    ("src/builtins/source.rs", """    let status = scripting::run_script(sh, &args);""", """    if sh.get_env("CICADA_SOURCED").as_deref() == Some(args[1].as_str()) {
+        return cr;
+    }
+    let status = scripting::run_script(sh, &args);"""))
+mut("C01", "tokenizer-plain-line-split-whitespace", "R01-5|parsers::parser_line::parse_line|pred|is_whitespace",
+    "lines without specials are split with split_whitespace",
+    (P, """    let mut sep = String::new();
+    // `sep_second` is for commands like this:""", """    if !line.contains(&['\\\\', '\\'', '"', '`', '$', '|', '(', ')', '#', '&', ';', '>', '<', '{', '*', '~', '='][..]) {
+        return LineInfo::new(line.split_whitespace().map(|x| (String::new(), x.to_string())).collect());
+    }
+    let mut sep = String::new();
+    // `sep_second` is for commands like this:"""))
